@@ -72,6 +72,8 @@ def run_child(fn, timeout=120.0):
     for m in msgs:
         if isinstance(m, dict) and "harness_exception" in m:
             raise ChildCrashed(m["harness_exception"])
-    if code not in (0, 137, 3):
+    if code not in (0, 137, 3) and code >= 0:
         raise ChildCrashed(f"child exit code {code}; messages={msgs[-3:]}")
+    # code < 0: the system's process died from a signal (e.g. SIGSEGV inside the code under
+    # test): that is a crash of the system, not of the harness; durable state is what counts
     return msgs, code
